@@ -19,8 +19,8 @@ typedef amgcl::backend::builtin<V> Backend;
 typedef amgcl::backend::crs<V> Crs;
 
 struct Problem {
-    Sys<V> A0, A1, A2, Ash, Aempty, Azero;
-    std::shared_ptr<Crs> a0, a1, a2, ash, aempty, azero;
+    Sys<V> A0, A1, A2, Ash, Aempty, Azero, Ahuge;
+    std::shared_ptr<Crs> a0, a1, a2, ash, aempty, azero, ahuge;
     std::vector<V> f[F_KINDS], x0[F_KINDS][X_KINDS];
     bool exact_ok[F_KINDS];
     uint64_t h0, h1, h2, hs, he, hz;
@@ -34,6 +34,8 @@ struct Problem {
         Aempty = empty_row_matrix(A0); Azero = zero_values(A0);
         a0 = std::make_shared<Crs>(A0.tie()); a1 = std::make_shared<Crs>(A1.tie()); a2 = std::make_shared<Crs>(A2.tie());
         ash = std::make_shared<Crs>(Ash.tie()); aempty = std::make_shared<Crs>(Aempty.tie()); azero = std::make_shared<Crs>(Azero.tie());
+        // A0 with one coefficient of the largest finite magnitude: products overflow, inner products become Inf/NaN half way through a solve
+        Ahuge = A0; Ahuge.val[Ahuge.val.size() / 2] = V(std::numeric_limits<double>::max()); ahuge = std::make_shared<Crs>(Ahuge.tie());
         auto hc = [](const Crs &A) { Hs h; h.crs(A); return h.h; };
         h0 = hc(*a0); h1 = hc(*a1); h2 = hc(*a2); hs = hc(*ash); he = hc(*aempty); hz = hc(*azero);
         int n = (int)A0.n;
@@ -163,6 +165,7 @@ struct SolverKind {
         }
         alt("A1", pb.a1, F_GEN, X_ZERO); alt("A1", pb.a1, F_GEN, X_RAMP); alt("A2", pb.a2, F_GEN2, X_ZERO);
         alt("Ashift", pb.ash, F_E1, X_ZERO); alt("Ashift", pb.ash, F_GEN, X_RAMP); alt("Aemptyrow", pb.aempty, F_GEN, X_ZERO); alt("Azero", pb.azero, F_GEN, X_ZERO);
+        alt("Ahuge", pb.ahuge, F_GEN, X_ZERO);
     }
 };
 
